@@ -24,6 +24,9 @@ META = {
     'technique': 'static analysis: dominance and path search on the CFG (pairing add_ele/ele_error, add_seg/seg_error), parameter-position audit, message/code table agreement',
 }
 
+
+META['explanation'] += ' Rounds 4-5: ' + 'R2 also: in x12n_document node.is_valid(seg, errh) is reached only through add_seg/add_*_loop/close_*_loop of the same iteration; _add_cur_seg/_add_cur_ele link the node on every path that marks it added. R8 (= C18.R2 restricted) the validating modules keep no module/class-level state.'
+
 VALIDATORS = ('segment_if.is_valid', 'composite_if.is_valid', 'element_if.is_valid', 'element_if._is_valid_code')
 
 
